@@ -15,4 +15,11 @@ PROPS = {
         "assumptions": [DOMAIN],
         "min_nontrivial": {"quick": 1000, "thorough": 10000},
     },
+    "C17": {
+        "budget": {"quick": 1500, "thorough": 40000},
+        "rule": "one case = one recorded history: a PreparedGeometry (owned, from the Geometry enum) reused for 10-60 (thorough: up to 300) relate calls against a pool of 2-8 partners derived from it (plus itself), operand position random, partner given as plain enum / plain concrete type / freshly prepared (owned, borrowed, from the concrete type), clone() of the prepared geometry interleaved; every response is compared with the sequential model (plain relate on the underlying geometries) and with the response the same request got earlier in the history. Non-trivial = history with >= 2 responses in which the operands intersect; distinct by digest of (prepared geometry, pool, length).",
+        "assumptions": [DOMAIN, "the sequential model (plain relate) is judged against the exact oracle by C01, not here"],
+        "min_nontrivial": {"quick": 500, "thorough": 5000},
+        "technique": "runtime monitoring: recorded call/return histories checked against a sequential model (plain relate) and for response stability",
+    },
 }
